@@ -95,6 +95,8 @@ C08 = [
     ("U_checked_ilog2", "U_checked_ilog2", None),
     ("I_checked_pow", "I_checked_pow",
      "intros. unfold Glue.I_checked_pow, I_checked_pow. rewrite land1_even.\n  destruct (U_checked_pow w (I_unsigned_abs w a) k); reflexivity."),
+    ("I_ilog2", "I_ilog2", None),
+    ("I_checked_ilog2", "I_checked_ilog2", None),
     ("I_overflowing_pow", "I_overflowing_pow",
      "intros. unfold Glue.I_overflowing_pow, I_overflowing_pow. rewrite land1_odd1.\n  destruct (U_overflowing_pow w (I_unsigned_abs w a) k) as [u o].\n  destruct (is_negative w a && Z.odd k); reflexivity."),
 ]
@@ -112,6 +114,27 @@ C04 = [(S + "_" + f, S + "_" + m, None) for S in "UI" for f, m in
     ("I_Neg_neg", "I_neg", None), ("I_Neg_ref_neg", "I_neg", None),
     ("I_BitAnd_bitand", "bitand a b", None), ("I_BitOr_bitor", "bitor a b", None), ("I_BitXor_bitxor", "bitxor a b", None),
     ("I_Div_div", "I_div", None), ("I_Rem_rem", "I_rem", None), ("I_Not_not", "bitnot w a", None),
+]
+
+# C18: the num_traits forwarders of src/int/numtraits.rs; right-hand sides = the functions of Model/NumTraits.v the run table uses
+_NT = [("CheckedNeg_checked_neg", "checked_neg"), ("CheckedShl_checked_shl", "checked_shl"), ("CheckedShr_checked_shr", "checked_shr"),
+       ("CheckedEuclid_checked_div_euclid", "checked_div_euclid"), ("CheckedEuclid_checked_rem_euclid", "checked_rem_euclid"),
+       ("Euclid_div_euclid", "div_euclid"), ("Euclid_rem_euclid", "rem_euclid"), ("WrappingNeg_wrapping_neg", "wrapping_neg"),
+       ("WrappingShl_wrapping_shl", "wrapping_shl"), ("WrappingShr_wrapping_shr", "wrapping_shr"), ("Pow_pow", "pow"),
+       ("Saturating_saturating_add", "saturating_add"), ("Saturating_saturating_sub", "saturating_sub"), ("MulAdd_mul_add", "mul_add"),
+       ("CheckedAdd_checked_add", "checked_add"), ("CheckedDiv_checked_div", "checked_div"), ("CheckedMul_checked_mul", "checked_mul"),
+       ("CheckedRem_checked_rem", "checked_rem"), ("CheckedSub_checked_sub", "checked_sub"), ("SaturatingAdd_saturating_add", "saturating_add"),
+       ("SaturatingMul_saturating_mul", "saturating_mul"), ("SaturatingSub_saturating_sub", "saturating_sub"),
+       ("WrappingAdd_wrapping_add", "wrapping_add"), ("WrappingMul_wrapping_mul", "wrapping_mul"), ("WrappingSub_wrapping_sub", "wrapping_sub"),
+       ("OverflowingAdd_overflowing_add", "overflowing_add"), ("OverflowingSub_overflowing_sub", "overflowing_sub")]
+C18 = [(S + "_" + g, "NumTraits.T%s_%s" % (S, m), None) for S in "UI" for g, m in _NT]
+C18 = [(n_, "NumTraits.TU_checked_neg a" if n_ == "U_CheckedNeg_checked_neg" else r_, p_) for n_, r_, p_ in C18] + [
+    ("U_Bounded_min_value", "NumTraits.TU_min_value n", None), ("U_Bounded_max_value", "NumTraits.TU_max_value w n", None),
+    ("I_Bounded_min_value", "NumTraits.TI_min_value w n", None), ("I_Bounded_max_value", "NumTraits.TI_max_value w n", None),
+    ("U_One_one", "NumTraits.T_one n", None), ("I_One_one", "NumTraits.T_one n", None),
+    ("U_Zero_zero", "NumTraits.T_zero n", None), ("I_Zero_zero", "NumTraits.T_zero n", None),
+    ("U_One_is_one", "NumTraits.T_is_one a", None), ("I_One_is_one", "NumTraits.T_is_one a", None),
+    ("U_Zero_is_zero", "NumTraits.T_is_zero a", None), ("I_Zero_is_zero", "NumTraits.T_is_zero a", None),
 ]
 
 C08_PRELUDE = """
@@ -137,5 +160,8 @@ SPEC = {
     "C06": ("bits", "bits, bit, the bit counts of BInt, swap_bytes / reverse_bits of BInt, is_power_of_two, (checked_)next_power_of_two, "
             "is_zero / is_one, cast_signed / cast_unsigned, BInt bitand / bitor / bitxor / not", True, "", C06),
     "C07": ("sign", "signum, is_positive, is_negative; BInt eq / ne / cmp, BUint ne", True, "", C07),
-    "C08": ("pow", "pow, ilog2, checked_ilog2, bint checked_pow / overflowing_pow", True, C08_PRELUDE, C08),
+    "C08": ("pow", "pow, ilog2, checked_ilog2 (BInt: the ilog! / checked_ilog! expansions), bint checked_pow / overflowing_pow", True, C08_PRELUDE, C08),
+    "C18": ("numtraits", "the num_traits forwarders of src/int/numtraits.rs: Bounded, Zero, One, Checked* / Wrapping* / Saturating* / "
+            "Overflowing* (the 13 num_trait_impl! expansions included), CheckedEuclid, Euclid, Pow, MulAdd", True,
+            "From Bnum.Model Require NumTraits.", C18),
 }
